@@ -1251,7 +1251,13 @@ std::ostream& expression_t::print(std::ostream& os, bool old) const
     case MIN:
     case MAX:
     case FRACTION:
-        embrace_strict(os, old, get(0), precedence);
+        if (precedence == get_precedence(ASSIGN)) {
+            // assignments group to the right and a conditional extends as far to the right as possible:
+            // as the target of an assignment both need parentheses
+            embrace(os, old, get(0), get_precedence(INLINE_IF));
+        } else {
+            embrace_strict(os, old, get(0), precedence);
+        }
         switch (data->kind) {
         case FRACTION: os << " : "; break;
         case PLUS: os << " + "; break;
@@ -1460,7 +1466,7 @@ std::ostream& expression_t::print(std::ostream& os, bool old) const
         os << ')';
         break;
 
-    case RATE: get(0).print(os, old) << '\''; break;
+    case RATE: embrace_strict(os, old, get(0), precedence) << '\''; break;
 
     case EF:
         os << "E<> ";
